@@ -392,7 +392,7 @@ func (ca *cacheAnalysis) summary(fn *ssa.Function, in int) int {
 func ruleCacheCoherence(w *World, r *Report) {
 	r.Rule("C18-C", "For every reader type and every memoised field F of it (a field stored under a dominating 'F holds the reset value' test), a forward dataflow over each method's CFG tracks F ∈ {valid, reset, stale, updated}: a store to a field F's value is computed from turns valid into stale, a store of the reset value (nil / negative constant) gives reset, calls on the same receiver apply the callee's summary. No method entered with F valid or reset may return with F possibly stale.")
 	rts := w.readerTypes()
-	r.Expect("reader implementations in package text", len(rts), 2)
+	r.Expect("reader implementations in package text", len(rts), 1)
 	nCaches, nMethods := 0, 0
 	for _, t := range rts {
 		caches := w.findCaches(t)
@@ -437,8 +437,8 @@ func ruleCacheCoherence(w *World, r *Report) {
 			}
 		}
 	}
-	r.Expect("memoised reader fields (peeked line, line offsets)", nCaches, 3)
-	r.Expect("method x cache obligations", nMethods, 50)
+	r.Expect("memoised reader fields (peeked line, line offsets)", nCaches, 1)
+	r.Expect("method x cache obligations", nMethods, 29)
 }
 
 // ---- C18-R ---------------------------------------------------------------------------------------
@@ -637,7 +637,7 @@ func ruleRestoreOnExit(w *World, r *Report) {
 			r.Unknown(key+": returns", w.FnPos(fn), "no return found")
 		}
 	}
-	r.Expect("reader helpers that save the position", n, 3)
+	r.Expect("reader helpers that save the position", n, 1)
 }
 
 func mapPS(s int, f func(int) int) int {
@@ -786,7 +786,7 @@ func rulePeekGuardAgreement(w *World, r *Report) {
 			r.OK(key, w.FnPos(peek), "both guarded by "+strings.Join(a, " && "))
 		}
 	}
-	r.Expect("reader types with Peek and PeekLine", n, 2)
+	r.Expect("reader types with Peek and PeekLine", n, 1)
 }
 
 // ---- C18-S ---------------------------------------------------------------------------------------
@@ -897,7 +897,7 @@ func rulePositionInverse(w *World, r *Report) {
 		}
 		r.OK(key, w.FnPos(set), "both arguments are stored into the fields Position returns, on every path")
 	}
-	r.Expect("reader types with Position/SetPosition", n, 2)
+	r.Expect("reader types with Position/SetPosition", n, 1)
 }
 
 func outStateC18(b *ssa.BasicBlock, inS map[*ssa.BasicBlock]int, set *ssa.Function, t *types.Named, fields [2]string, isParamVal func(ssa.Value, *ssa.Parameter) bool) int {
@@ -1191,5 +1191,5 @@ func ruleLineStateAgreement(w *World, r *Report) {
 			}
 		}
 	}
-	r.Expect("per-line fields checked", n, 12)
+	r.Expect("per-line fields checked", n, 8)
 }
